@@ -1,5 +1,5 @@
 (* C03: enumeration reproduces the key set exactly, once each, in order, with lookup's ids. *)
-From X Require Import Base Arr Dac Trie Serial Spec Wf IfaceQuery SerialFacts All Examples ExampleFacts.
+From X Require Import Builder IfaceBuild Base Arr Dac Trie Serial Spec Wf IfaceQuery SerialFacts All AllBuild Examples ExampleFacts.
 Local Open Scope N_scope.
 
 Theorem C03_enumerate : forall v L P K, wf_for v L P K -> enumerate P = Ok (with_ids P K).
@@ -14,9 +14,16 @@ Proof. exact load_save. Qed.
 Theorem C03_mapped : forall v P r, trie_fits v P -> mmap v (save v P ++ r) = Ok P.
 Proof. exact mmap_save. Qed.
 
+(* headline: for EVERY valid key list *)
+Theorem C03_for_all_valid_K : forall v tbl K req, valid_keys K = true -> small_keys K -> perm_okb tbl = true ->
+  exists P, build v tbl K req = Ok P /\ enumerate P = Ok (with_ids P K) /\
+  forall m, pred_calls P (mk_predictive []) m = Ok (abs_calls (with_ids P K) m).
+Proof. exact headline_enumerate. Qed.
+
 Example C03_nonvacuous : forall v, exists L P, ex_logical v = Ok L /\ wf_for v L P ex_keys.
 Proof. exact ex_wf_for. Qed.
 Example C03_example : match ex_trie V7 with Ok P => match enumerate P with Ok l => map snd l = ex_keys | _ => False end | _ => False end.
 Proof. vm_compute. reflexivity. Qed.
 
 Print Assumptions C03_enumerate. Print Assumptions C03_enumerate_iterator. Print Assumptions C03_loaded. Print Assumptions C03_mapped.
+Print Assumptions C03_for_all_valid_K.
